@@ -429,6 +429,51 @@ def canon_shapes(tree):
     return n_if, n_aug
 
 
+class _Fold(ast.NodeTransformer):
+    """integer arithmetic on literals is folded: `(1 << 9) // 8`, `1 << 6`
+    and `64` are one and the same"""
+    _OPS = {ast.Add: lambda a, b: a + b, ast.Sub: lambda a, b: a - b,
+            ast.Mult: lambda a, b: a * b, ast.FloorDiv: lambda a, b: a // b,
+            ast.Mod: lambda a, b: a % b, ast.LShift: lambda a, b: a << b,
+            ast.RShift: lambda a, b: a >> b, ast.BitOr: lambda a, b: a | b,
+            ast.BitAnd: lambda a, b: a & b, ast.BitXor: lambda a, b: a ^ b,
+            ast.Pow: lambda a, b: a ** b}
+
+    @staticmethod
+    def _int(n):
+        return isinstance(n, ast.Constant) and isinstance(n.value, int) \
+            and not isinstance(n.value, bool)
+
+    def visit_BinOp(self, node):
+        self.generic_visit(node)
+        if self._int(node.left) and self._int(node.right) and type(
+                node.op) in self._OPS:
+            a, b = node.left.value, node.right.value
+            try:
+                if isinstance(node.op, (ast.LShift, ast.Pow)) and not (
+                        0 <= b <= 64):
+                    return node
+                v = self._OPS[type(node.op)](a, b)
+            except (ZeroDivisionError, ValueError, OverflowError):
+                return node
+            if abs(v) < 1 << 70:
+                return ast.copy_location(ast.Constant(v), node)
+        return node
+
+    def visit_UnaryOp(self, node):
+        self.generic_visit(node)
+        if isinstance(node.op, (ast.USub, ast.Invert)) and self._int(
+                node.operand):
+            v = -node.operand.value if isinstance(node.op, ast.USub) \
+                else ~node.operand.value
+            return ast.copy_location(ast.Constant(v), node)
+        return node
+
+
+def fold_constants(tree):
+    return _Fold().visit(tree)
+
+
 def _leaves(stmts):
     if not stmts:
         return False
@@ -582,6 +627,7 @@ def normalize(tree, modname):
         # inlining may have produced `if not c: ... else: ...` again
         canon_shapes(tree)
         strip_noise(tree)
+    fold_constants(tree)
     info["renamed"] = recover_names(tree, modname, ref)
     if "functions" in ref:
         n = 0
